@@ -20,6 +20,7 @@ import (
 	"log/slog"
 	"os"
 	"path/filepath"
+	"regexp"
 	"sort"
 	"strings"
 	"time"
@@ -277,3 +278,5 @@ func must(err error) {
 		os.Exit(3)
 	}
 }
+
+func regexpMust(s string) *regexp.Regexp { return regexp.MustCompile(s) }
